@@ -68,7 +68,8 @@ def main():
     ev = V / 'evidence' / f'{prop}.json'
     ev_backup = ev.read_bytes() if ev.exists() else None
     try:
-        for tier in ('quick', 'thorough'):
+        # SEEDTEST_QUICK_ONLY=1 (or the flag file) skips the thorough tier when the quick tier misses (used for the third round, to save time)
+        for tier in (('quick',) if os.environ.get('SEEDTEST_QUICK_ONLY') or os.path.exists('/tmp/seedtest_quick_only') else ('quick', 'thorough')):
             rc, out = sh([str(V / 'check'), prop, tier], cwd=V, timeout=7200)
             vio = [l for l in out.splitlines() if l.startswith('VIOLATION')]
             caught[tier] = {'rc': rc, 'violation': vio[:1], 'tail': out.splitlines()[-4:]}
